@@ -178,10 +178,19 @@ def forEach {α : Type} : List α → (α → M Unit) → M Unit
 def getRef (r : Nat) : M Ref := do return (← getS).refs.getD r default
 def setRef (r : Nat) (f : Ref → Ref) : M Unit :=
   modS fun s => { s with refs := s.refs.set r (f (s.refs.getD r default)) }
-def newRef (r : Ref) : M Nat := do
-  let s ← getS
-  setS { s with refs := s.refs ++ [r] }
-  return s.refs.length
+def newRef (r : Ref) : M Nat := fun c =>
+  .ok c.st.refs.length { c with st := { c.st with refs := c.st.refs ++ [r] } }
+/-- a fresh path node -/
+def newNode : M Nat := fun c =>
+  .ok c.st.nodes.length { c with st := { c.st with nodes := c.st.nodes ++ [{}] } }
+/-- the id the backend gives to the next File it hands out -/
+def newHandle : M Nat := fun c =>
+  .ok c.st.nextHandle { c with st := { c.st with nextHandle := c.st.nextHandle + 1 } }
+def whenSome {α : Type} (o : Option α) (f : α → M Unit) : M Unit :=
+  match o with
+  | some a => f a
+  | none => pure ()
+def panicIf (b : Bool) : M Unit := if b then goPanic else pure ()
 def getNode (n : Nat) : M Node := do return (← getS).nodes.getD n default
 def setNode (n : Nat) (f : Node → Node) : M Unit :=
   modS fun s => { s with nodes := s.nodes.set n (f (s.nodes.getD n default)) }
@@ -259,9 +268,7 @@ def pathNodeFor (n : Nat) (name : SafeName) : M Nat := do
   match nd.childNodes.find? (·.1 == name) with
   | some (_, c) => return c
   | none =>
-    let s ← getS
-    let c := s.nodes.length
-    setS { s with nodes := s.nodes ++ [{}] }
+    let c ← newNode
     setNode n fun nd => { nd with childNodes := (name, c) :: nd.childNodes }
     return c
 
@@ -330,9 +337,7 @@ def renameChildTo (f : Nat) (oldName : SafeName) (target : Nat) (newName : SafeN
     let x ← getRef r
     if x.refs > 0 then               -- TryIncRef
       incRef r
-      match x.parent with
-      | some p => decRefU p          -- drop original parent reference
-      | none => pure ()
+      whenSome x.parent decRefU      -- drop original parent reference
       setRef r fun x => { x with parent := some target }
       incRef target
       addChild tx.node r newName
@@ -343,7 +348,7 @@ def renameChildTo (f : Nat) (oldName : SafeName) (target : Nat) (newName : SafeN
   | some o => do
     -- addPathNodeFor (panics if the name is present – it was just removed by markChildDeleted)
     let tn ← getNode tx.node
-    if tn.childNodes.any (·.1 == newName) then goPanic
+    panicIf (tn.childNodes.any (·.1 == newName))
     setNode tx.node fun nd => { nd with childNodes := (newName, o) :: nd.childNodes }
     let s ← getS
     notifyNameChange (s.nodes.length + 1) o
